@@ -161,7 +161,13 @@ def firstBad (checks : List (String × Bool)) : String :=
   | some c => "bad:" ++ c.1
   | none => "ok"
 
-def allowed (mode : String) (ps : List Pkg) (tr : List String) : String :=
+def allowed (mode : String) (ps0 : List Pkg) (tr : List String) : String :=
+  -- only the packages reachable from the main package are part of the program
+  let g : Graph := ps0.map fun p => (p.path, sortImports p.imports)
+  let reach := match ps0.getLast? with
+    | some m => importDependencies (gImports g) (ps0.length + 2) "runtime" m.path
+    | none => []
+  let ps := ps0.filter fun p => reach.contains p.path
   let all := ps.flatMap pkgItems
   let expected := all.flatMap item
   -- (a) every item begins and ends exactly once, nothing else is in the trace
@@ -298,6 +304,17 @@ def handleLn : List String → String
     match callTarget [⟨ref, impl⟩] [impl, ref] ref (how == "same") with
     | some _ => "resolved"
     | none => "unresolved"
+  | ["dotted", form] =>
+    -- the recorded witness: package `m/pk.v2` (last path element contains a dot) defines `impl`; package `m` declares
+    -- `//go:linkname f m/pk%2ev2.impl` (the spelling gc requires) or `//go:linkname f m/pk.v2.impl`
+    let text := if form == "esc" then "//go:linkname f m/pk%2ev2.impl" else "//go:linkname f m/pk.v2.impl"
+    let ref : Sym := ⟨"m".toList, "f".toList⟩
+    match readLinkname "m".toList text.toList with
+    | .link l =>
+      match resolve [l] [⟨"m/pk.v2".toList, "impl".toList⟩, ref] ref with
+      | some _ => "resolved"
+      | none => "unresolved"
+    | _ => "no-directive"
   | ["split", ext] =>
     match ofHex ext with
     | some e => let r := splitExt e; s!"{toHexT r.1} {toHexT r.2}"
